@@ -56,3 +56,29 @@ package envelope
 //@ func deriveEncKeyFromScalar
 //@ func hashContext
 //@   fresh ret
+//@   ensures len(ret) == 32 && content(ret) == blake3(context)
+
+// ---- C16 / C18: unsealing ----
+
+// matchPrivKeys maps envelope keypair indexes to offered private keys (non-nil ones).
+//@ func matchPrivKeys
+//@   noframe
+//@   nilable env
+//@   requires forall i int trigger privKeys[i] :: 0 <= i && i < len(privKeys) ==> privKeys[i] != nil && privKeyOK(privKeys[i])
+//@   ensures ret1 == nil && ret0 != nil
+//@   ensures forall k int trigger dom(ret0, k) :: (k in ret0) ==> ret0[k] != nil && privKeyOK(ret0[k])
+
+// UnlockEnvelope:
+//  - a context other than the sealed one is refused with ErrContextMismatch (C18);
+//  - it returns a payload only after collecting more than threshold shares, and "not enough
+//    shares" (nil payload, nil error) only with fewer than threshold+1 (C16);
+//  - the reported counts are the number of shares collected and threshold+1 (32-bit).
+//@ func UnlockEnvelope
+//@   noframe
+//@   nilable env
+//@   requires forall i int trigger privKeys[i] :: 0 <= i && i < len(privKeys) ==> privKeys[i] != nil && privKeyOK(privKeys[i])
+//@   ensures env != nil && len(env.Grants) > 0 && len(env.Keypairs) > 0 && content(env.ContextHash) != blake3(context) ==> ret2 == ErrContextMismatch && ret0 == nil && ret1 == nil
+//@   assert at exit: ret2 == nil ==> ret1 != nil && ret1.SharesNeeded == (threshold + 1) % 4294967296 && ret1.SharesAvailable == len(collected) % 4294967296
+//@   assert at exit: ret2 == nil && ret0 != nil ==> ret1.Success && len(collected) >= threshold + 1
+//@   assert at exit: ret2 == nil && ret0 == nil ==> !ret1.Success && len(collected) % 4294967296 < (threshold + 1) % 4294967296
+//@   ensures ret2 != nil ==> ret0 == nil && ret1 == nil
